@@ -8,6 +8,8 @@ package main
 
 import (
 	"context"
+	"crypto/sha256"
+	"encoding/base64"
 	"encoding/json"
 	"fmt"
 	"net/http"
@@ -142,8 +144,7 @@ func execFuzz(op string, args []string) string {
 	case "trusted":
 		if v, err := gmsl.GetRoomVersion(gmsl.RoomVersion(ver)); err == nil {
 			if e, err := v.NewEventFromTrustedJSON(in, false); err == nil {
-				touchAccessors(e)
-				e.Redact()
+				touchAccessors(e) // (Redact() is not called: trusted JSON is the caller's responsibility)
 			}
 			if e, err := v.NewEventFromTrustedJSONWithEventID("$x:y", in, false); err == nil {
 				touchAccessors(e)
@@ -294,6 +295,26 @@ func (r *Rng) mutateEvent(m map[string]interface{}) {
 	}
 }
 
+// withHash adds the content hash the receiving server will compute (so that the event is accepted unredacted).
+func withHash(m map[string]interface{}) {
+	c := map[string]interface{}{}
+	for k, v := range m {
+		if k != "unsigned" && k != "signatures" && k != "hashes" {
+			c[k] = v
+		}
+	}
+	b, err := json.Marshal(c)
+	if err != nil {
+		return
+	}
+	cj, err := gmsl.CanonicalJSON(b)
+	if err != nil {
+		return
+	}
+	sum := sha256.Sum256(cj)
+	m["hashes"] = map[string]interface{}{"sha256": base64.RawStdEncoding.EncodeToString(sum[:])}
+}
+
 func evMap(e *Ev) map[string]interface{} {
 	var m map[string]interface{}
 	d := json.NewDecoder(strings.NewReader(string(e.JSON)))
@@ -317,6 +338,9 @@ func genFuzz(o *Out, tier string, r *Rng) {
 		target := Pick(r, h.All)
 		m := evMap(target)
 		r.mutateEvent(m)
+		if r.Chance(60) {
+			withHash(m)
+		}
 		tj, _ := json.Marshal(m)
 		args := []string{ver, hx(tj)}
 		for _, e := range h.All {
@@ -326,6 +350,9 @@ func genFuzz(o *Out, tier string, r *Rng) {
 			if r.Chance(15) {
 				mm := evMap(e)
 				r.mutateEvent(mm)
+				if r.Chance(60) {
+					withHash(mm)
+				}
 				b, _ := json.Marshal(mm)
 				args = append(args, hx(b))
 			} else {
@@ -346,7 +373,7 @@ func genFuzz(o *Out, tier string, r *Rng) {
 		o.Do("json", ver, hx(sb))
 		// key responses
 		keys := map[string]interface{}{"server_name": Pick(r, weirdStrings), "valid_until_ts": r.weirdValue(),
-			"verify_keys": map[string]interface{}{"ed25519:1": map[string]interface{}{"key": Pick(r, []string{"AAAA", "", "!", "Noi6WqcDj0QmPxCNQqgezwTlBKrfqehY1u2FyWP9uYw"})}},
+			"verify_keys":     map[string]interface{}{"ed25519:1": map[string]interface{}{"key": Pick(r, []string{"AAAA", "", "!", "Noi6WqcDj0QmPxCNQqgezwTlBKrfqehY1u2FyWP9uYw"})}},
 			"old_verify_keys": map[string]interface{}{"ed25519:0": map[string]interface{}{"key": Pick(r, []string{"AAAA", "Noi6WqcDj0QmPxCNQqgezwTlBKrfqehY1u2FyWP9uYw"}), "expired_ts": r.weirdValue()}},
 			"signatures":      r.weirdValue()}
 		if r.Chance(50) {
